@@ -357,8 +357,11 @@ def finish(ctx: Ctx, rule_nt: str):
     ev = {'property_id': ctx.pid, 'tier': ctx.tier, 'seed': int(ctx.seed), 'level': ctx.level,
           'coverage': cov, 'assumptions': ctx.assumptions, 'wall_s': round(wall, 2),
           'violations': len(bykey)}
-    os.makedirs(os.path.join(VERIF, 'evidence'), exist_ok=True)
-    evp = os.path.join(VERIF, 'evidence', f'{ctx.pid}.json')
+    # runs against a scratch copy of the library (MCX_REPO set by the seeded-change / mutant runners) must not overwrite the
+    # evidence of the registered check, which describes /repo itself
+    evdir = os.path.join(VERIF, 'evidence') if os.path.realpath(REPO) == os.path.realpath('/repo') else os.path.join(VERIF, 'evidence', 'scratch')
+    os.makedirs(evdir, exist_ok=True)
+    evp = os.path.join(evdir, f'{ctx.pid}.json')
     json.dump(ev, open(evp, 'w'), indent=1)
     _validate(evp)
 
